@@ -162,7 +162,9 @@ theorem commitStates_res {c : DCommit} (h : CInv t₀ tx₀ del [] (pendUpd []) 
     (∀ p ∈ c.tx.sItems, p.2.new ∈ (commitStates c).1.res.allS) ∧
     (∀ x ∈ (commitStates c).1.res.ctx, findC (commitStates c).1.t x.h = some x) ∧
     (∀ p ∈ c.tx.cItems, ∀ n ∈ p.2.new, n ∈ (commitStates c).1.res.ctx) ∧
-    ResFrame (commitStates c).1.res c.res := by
+    ResFrame (commitStates c).1.res c.res ∧
+    (∀ x ∈ (commitStates c).1.res.allS, ∃ p ∈ c.tx.sItems, x = p.2.new) ∧
+    (∀ x ∈ (commitStates c).1.res.ctx, ∃ p ∈ c.tx.cItems, p.2.new = some x) := by
   obtain ⟨hb0, hci, hck, hsk⟩ := h.final_facts
   have hr0 : RB c.tx.sItems [] c := ⟨by simp, by simp [hS]⟩
   obtain ⟨e1, b1, t1, f1⟩ := SB.kindsAll [.alert, .metric] [] c hb0 rfl (by decide) (by simp)
@@ -201,6 +203,12 @@ theorem commitStates_res {c : DCommit} (h : CInv t₀ tx₀ del [] (pendUpd []) 
     have hh := hci1.h p hp x e
     rw [hctx.1, applyCItems_findC hci1, hh, dictGet_of_mem_nodup hci1.keys (show (p.1, p.2) ∈ c1.tx.cItems from hp)]
     exact e
+  have hc2s : ∀ x ∈ c2.res.ctx, ∃ p ∈ c.tx.cItems, p.2.new = some x := by
+    intro x hx
+    rw [hctx.2] at hx
+    simp only [fc1, hC, List.nil_append, hups, List.mem_filterMap] at hx
+    obtain ⟨p, hp, e⟩ := hx
+    exact ⟨p, by rw [← t1]; exact hp, e⟩
   have hc2' : ∀ p ∈ c.tx.cItems, ∀ n ∈ p.2.new, n ∈ c2.res.ctx := by
     intro p hp n hn
     rw [hctx.2]
@@ -212,7 +220,9 @@ theorem commitStates_res {c : DCommit} (h : CInv t₀ tx₀ del [] (pendUpd []) 
   generalize applyKinds c2 [.component, .operational, .rt] = q3 at e3 b3 t3 f3 r3 fr3 fc3
   obtain ⟨c3, x3⟩ := q3
   simp only at e3 b3 t3 f3 r3 fr3 fc3
-  refine ⟨?_, ?_, ?_, ?_, ⟨fr3.1.trans (fr2.1.trans fr1.1), fr3.2.1.trans (fr2.2.1.trans fr1.2.1), fr3.2.2.trans (fr2.2.2.trans fr1.2.2)⟩⟩
+  refine ⟨?_, ?_, ?_, ?_, ⟨fr3.1.trans (fr2.1.trans fr1.1), fr3.2.1.trans (fr2.2.1.trans fr1.2.1), fr3.2.2.trans (fr2.2.2.trans fr1.2.2)⟩,
+    fun x hx => by obtain ⟨p, hp, _, e⟩ := (r3.resS x).1 hx; exact ⟨p, hp, e⟩,
+    fun x hx => hc2s x (fc3 ▸ hx)⟩
   · intro x hx
     obtain ⟨p, hp, hk, rfl⟩ := (r3.resS x).1 hx
     rw [(hsk p hp).2]; exact r3.written p hp hk
